@@ -2,7 +2,7 @@
 
 Real code executed symbolically: structs / rust_struct (derive list, repr, panics) and create_shader_module_inner (non-
 interference of the options with the rest of the output).
-Symbolic: the four derive switches, the representation; struct roles are covered by a template holding every role:
+Symbolic: the four derive switches, the representation; struct roles are covered by a template holding every role (also run without any vertex entry point):
 host-only, vertex-only, vertex + host, fragment input, runtime-array-terminated host struct, vertex input that is also the
 type of a private variable, struct of a workgroup variable.
 """
@@ -34,6 +34,10 @@ var<push_constant> pc: vec4<f32>;
 @fragment fn fs(i: FragIn) -> @location(0) vec4<f32> { return i.c * host.x * pc.x; }
 @compute @workgroup_size(2) fn cs() {}
 '''
+# the same module without any vertex entry point: the former vertex inputs are now inputs of a second fragment entry
+SRC_NO_VERTEX = SRC_NO_RT.replace('@vertex fn vs(a: VertexOnly, b: Both, c: Inst2, d: PrivIn) -> VsOut { var o: VsOut; o.pos = a.p; return o; }',
+                                  '@fragment fn vs(a: VertexOnly, b: Both, c: Inst2, d: PrivIn) -> @location(0) vec4<f32> { return a.p; }')
+assert SRC_NO_VERTEX != SRC_NO_RT
 SRC_RT = SRC_NO_RT + '''struct RtHost { n: u32, data: array<vec4<f32>> }
 @group(0) @binding(2) var<storage, read> rt: RtHost;
 '''
@@ -95,7 +99,7 @@ def run(ctx):
         d_ = {k: model_value(m_, v) for k, v in o.items()}
         d_['validate'] = model_value(m_, von)
         return d_
-    for label, src in (('no-runtime-array', SRC_NO_RT), ('runtime-array', SRC_RT)):
+    for label, src in (('no-runtime-array', SRC_NO_RT), ('runtime-array', SRC_RT), ('no-vertex-entry', SRC_NO_VERTEX)):
         with_rt = src is SRC_RT
         module = S.module(src)
         # the length of BigArr.data is symbolic (1..4096): derives must not depend on it
@@ -174,6 +178,8 @@ def run(ctx):
             m = ctx.witness(r[0])
             opts = opts_of(m)
             opts['matrix_vector_types'] = ['Rust', 'Glam', 'Nalgebra'][model_value(m, fmt)]
+            if src is SRC_NO_VERTEX:
+                opts['validate'] = False          # (a fragment entry taking vertex builtins does not pass naga's validator; the generator does not care)
             ctx.differential(src, opts)
             ctx.sample({'options': opts, 'template': label})
     ctx.extra['violations_by_rule'] = seen
